@@ -1,5 +1,6 @@
 """C13: determinisation, minimisation, pushing and trimming preserve the language (DESIGN.md §4 C13)."""
 import json
+import re
 from fractions import Fraction
 
 import fsamodel as F
@@ -8,7 +9,7 @@ from common import CoqError, coq_eval_bools, dec_val, close_enough
 
 OPS = ["determinize", "min_det", "push", "trim", "trim_vals"]
 BIMPORTS = ("From Coq Require Import List Arith ZArith QArith Qcanon.\nImport ListNotations.\nFrom GV.lib Require Import Semiring BigSum.\n"
-            "From GV.model Require Import Linear Wfsa WfsaEps EpsSpec Det.")
+            "From GV.model Require Import Linear Wfsa WfsaEps EpsSpec Det TrimW TrimSearch.")
 
 
 def inexact_machine(d):
@@ -23,6 +24,26 @@ def stochastic_py(om, tol=1e-7):
     for i_, _, _, w in om["arcs"]:
         mass[i_] = mass.get(i_, 0.0) + float(Fraction(w))
     return all(abs(v - 1.0) <= tol for v in mass.values())
+
+
+def raw_states(d):
+    """the state names of a dumped automaton as integers (None when the states are not plain integers)"""
+    names = {q for q, _ in d["init"]} | {q for q, _ in d["final"]} | {a[0] for a in d["arcs"]} | {a[2] for a in d["arcs"]} | set(d.get("states", []))
+    out = []
+    for n_ in names:
+        if not re.fullmatch(r"\d+", str(n_)):
+            return None
+        out.append(int(n_))
+    return sorted(out)
+
+
+def trim_state_check(m, d, bexprs, bmeta, om):
+    """the states of m.trim are exactly the ones the Coq model of the two graph searches keeps (C13_trim_search)"""
+    rs = raw_states(d)
+    if rs is None or m.get("names") or any(Fraction(w) == 0 for _, w in m["init"] + m["final"]) or any(Fraction(a[3]) == 0 for a in m["arcs"]):
+        return
+    bexprs.append("same_states [" + "; ".join(f"{q}%nat" for q in rs) + f"] (active {F.coq_wfsa(m)})")
+    bmeta.append((m, "trim", "the state set of the model of trim", om))
 
 
 def viol(ctx, sig, what, obj):
@@ -61,12 +82,12 @@ def run(ctx):
     ctx.cov["rule"] = ("acyclic automata (determinisation terminates) with shared prefixes, unequal rational weights, epsilon arcs, several initial states and dead states x all strings up to the longest path: "
                        "determinize / min_det / push / trim / trim_vals: values vs the Coq reference m(xs); each result is read back and (a) re-evaluated by the Coq model, (b) checked by the Coq checkers: deterministic (single initial state, no epsilon, <=1 arc per state and symbol), "
                        "stochastic (outgoing + final mass of every live state = 1), trim (every state accessible and co-accessible); non-trivial = non-zero weight")
-    ok, out = ctx.build(["proofs/DetProofs.vo", "proofs/TrimWProofs.vo", "proofs/WfsaProofs.vo", "model/Det.vo", "model/EpsSpec.vo"])
+    ok, out = ctx.build(["proofs/DetProofs.vo", "proofs/TrimWProofs.vo", "proofs/TrimSearchProofs.vo", "proofs/WfsaProofs.vo", "model/Det.vo", "model/EpsSpec.vo", "model/TrimSearch.vo"])
     if ok:
         ctx.prove("props/C13.v")
     else:
         ctx.obligation("coq-build(C13)", False, out[-3000:])
-        ok2, _ = ctx.build(["model/Det.vo", "model/EpsSpec.vo"])
+        ok2, _ = ctx.build(["model/Det.vo", "model/EpsSpec.vo", "model/TrimSearch.vo"])
         if not ok2:
             return
     n = 40 if quick else 400
@@ -122,6 +143,8 @@ def run(ctx):
             if op in ("trim", "trim_vals"):
                 bexprs.append(f"is_trim {lit}")
                 bmeta.append((m, op, "trim", om))
+                if op == "trim":
+                    trim_state_check(m, q["ok"]["machine"], bexprs, bmeta, om)
     # ---- cyclic automata: pushing and trimming terminate on every input (determinisation may not)
     cyc = [F.rand_wfsa(ctx.rng, n=ctx.rng.randint(2, 4), nT=2, narcs=ctx.rng.randint(3, 8), peps=0.1) for _ in range(25 if quick else 250)]
     cops = ["push", "trim", "trim_vals"]
@@ -159,6 +182,8 @@ def run(ctx):
             else:
                 bexprs.append(f"is_trim {lit}")
                 bmeta.append((m, op, "trim", om))
+                if op == "trim":
+                    trim_state_check(m, q["ok"]["machine"], bexprs, bmeta, om)
     otab.eval()
     for (i, op, xs), k in otab.keys.items():
         ref = tab.get((i, xs))
